@@ -86,3 +86,65 @@ theorem better_trans_weak {mx : Bool} {a b c : Ind} (h1 : better mx a b = false)
   exact Fit.not_worse_trans (a := a.fit) (b := b.fit) (c := c.fit) h1 h2
 
 end Select
+
+namespace Select
+
+theorem best_mem {mx : Bool} {l : List Ind} {b : Ind} (h : best mx l = some b) : b ∈ l := by
+  induction l generalizing b with
+  | nil => simp [best] at h
+  | cons a l ih =>
+    simp only [best] at h
+    split at h
+    · simp only [Option.some.injEq] at h; subst h; simp
+    · rename_i c hc
+      split at h
+      · simp only [Option.some.injEq] at h; subst h; exact List.mem_cons_of_mem _ (ih hc)
+      · simp only [Option.some.injEq] at h; subst h; simp
+
+/-- the best individual is at least as good as every member -/
+theorem best_not_worse {mx : Bool} {l : List Ind} {b : Ind} (h : best mx l = some b) :
+    ∀ x ∈ l, better mx x b = false := by
+  induction l generalizing b with
+  | nil => simp [best] at h
+  | cons a l ih =>
+    simp only [best] at h
+    split at h
+    · rename_i hn
+      simp only [Option.some.injEq] at h; subst h
+      have : l = [] := by
+        cases l with
+        | nil => rfl
+        | cons x xs =>
+          simp only [best] at hn
+          split at hn <;> (try split at hn) <;> simp at hn
+      subst this
+      intro x hx; simp only [List.mem_singleton] at hx; subst hx; exact better_irrefl mx _
+    · rename_i c hc
+      have ihc := ih hc
+      split at h
+      · rename_i hb
+        simp only [Option.some.injEq] at h; subst h
+        intro x hx
+        rcases List.mem_cons.mp hx with rfl | hx
+        · -- c strictly better than a ⇒ a not better than c
+          unfold better at hb ⊢
+          exact Fit.worse_asymm hb
+        · exact ihc x hx
+      · rename_i hb
+        simp only [Option.some.injEq] at h; subst h
+        have hb' : better mx c a = false := by simpa using hb
+        intro x hx
+        rcases List.mem_cons.mp hx with rfl | hx
+        · exact better_irrefl mx _
+        · exact better_trans_weak (ihc x hx) hb'
+
+theorem best_isSome_of_ne_nil {mx : Bool} {l : List Ind} (h : l ≠ []) : (best mx l).isSome := by
+  cases l with
+  | nil => exact absurd rfl h
+  | cons a l =>
+    simp only [best]
+    split
+    · simp
+    · split <;> simp
+
+end Select
